@@ -96,8 +96,28 @@ func (c ckConfig) config() *config.Config {
 	cfg.RateLimit = config.RateLimit{Enabled: c.rl, Logins: c.logins, Window: c.window}
 	if c.sso {
 		cfg.SSO = config.SSO{Enabled: true, Domain: c.domain, Mode: config.SSOModeServer, SessionCookieName: c.name}
+	} else if l := c.leftoverSSO(); l != nil {
+		cfg.SSO = *l
 	}
 	return cfg
+}
+
+// leftoverSSO: a STANDALONE configuration (sso.enabled=false) in which the other sso.* settings still carry values - the
+// deployment template / env file is shared with the SSO instances. config.Validate accepts it (SSO.Validate returns at once
+// when SSO is not enabled) and the documentation describes every one of them as meaningful in SSO mode only: none of them
+// may influence the standalone instance. The tokens carry sso=0 with the domain and the session cookie name; the remaining
+// settings are derived from them (lib/props/_cookie.py Cfg.leftover repeats the rule for the replay files): sso.mode is
+// "proxy" when the domain is written with a leading dot, else "server"; server-url and server-default-redirect-url are set.
+func (c ckConfig) leftoverSSO() *config.SSO {
+	if c.sso || (c.domain == "" && c.name == "") {
+		return nil
+	}
+	mode := config.SSOModeServer
+	if strings.HasPrefix(c.domain, ".") {
+		mode = config.SSOModeProxy
+	}
+	return &config.SSO{Enabled: false, Domain: c.domain, Mode: mode, SessionCookieName: c.name,
+		ServerURL: "https://sso.example.com", ServerDefaultRedirectURL: "https://www.example.com/"}
 }
 
 // configureNames repeats the lines of cmd/wonderwall/main.go:run that derive the cookie names
@@ -118,7 +138,8 @@ func (c ckConfig) stackOpts() stackOpts {
 	rl := &config.RateLimit{Enabled: c.rl, Logins: c.logins, Window: c.window}
 	return stackOpts{maxLifetime: 10 * time.Hour, par: true, ingresses: c.ingresses, rateLimit: rl, legacyCookie: c.legacy,
 		sso: c.sso, cookieSecure: c.secure, cookieSameSite: c.sameSite, cookiePrefix: c.prefix, ssoDomain: c.domain,
-		ssoCookieName: c.name, ssoDefaultTarget: "https://app.example.com/", proxyIngresses: c.proxyIngresses, ssoServerURL: c.serverURL(), autoLogin: c.autoLogin}
+		ssoCookieName: c.name, ssoDefaultTarget: "https://app.example.com/", proxyIngresses: c.proxyIngresses, ssoServerURL: c.serverURL(), autoLogin: c.autoLogin,
+		ssoLeftover: c.leftoverSSO()}
 }
 
 // serverURL: sso.server-url of the proxy = the SSO server's first ingress
@@ -615,6 +636,14 @@ func ckConfigs(tier string) []ckConfig {
 		sso: true, domain: "example.com", name: "n", legacy: false, proxyIngresses: proxyIngressSets[1]}))
 	out = append(out, rlOff(ckConfig{secure: false, sameSite: "Lax", prefix: defaultPrefix, ingresses: []string{"http://localhost:8080"},
 		sso: true, domain: "localhost", name: "sso-local", legacy: true}))
+	// standalone instances whose configuration still carries sso.* settings (sso.enabled=false; leftoverSSO): sso.domain with and
+	// without leading dot, sso.session-cookie-name, sso.mode server / proxy, server-url, with every cookie.same-site value
+	// (which standalone mode ignores), on a root ingress, nested ingresses, two hosts, and plain-http localhost
+	out = append(out,
+		rlOff(ckConfig{secure: true, sameSite: "None", prefix: "my.prefix", ingresses: ingressSets[2].ingresses, domain: "example.com", name: "sso.session.name"}),
+		rlOff(ckConfig{secure: true, sameSite: "Strict", prefix: defaultPrefix, ingresses: ingressSets[4].ingresses, domain: ".example.com", name: "n", legacy: true}),
+		rlOff(ckConfig{secure: false, sameSite: "Lax", prefix: defaultPrefix, ingresses: ingressSets[1].ingresses, domain: "localhost", name: "sso-local"}),
+		rlOff(ckConfig{secure: true, sameSite: "Lax", prefix: defaultPrefix, ingresses: ingressSets[5].ingresses, domain: "example.com"}))
 	// rate limit on
 	for _, is := range ingressSets[:3] {
 		c := ckConfig{secure: !is.local, sameSite: "Lax", prefix: defaultPrefix, ingresses: is.ingresses, rl: true, logins: 2, window: 3 * time.Second}
@@ -684,6 +713,10 @@ func probesFor(cfg ckConfig) []ckOrigin {
 	}
 	if cfg.sso {
 		hosts = append(hosts, "app.example.com")
+	}
+	if cfg.leftoverSSO() != nil {
+		// a host that is none of the instance's: a sibling under the left-over sso.domain (nothing may be sent there)
+		hosts = append(hosts, "sibling."+strings.TrimPrefix(cfg.domain, "."))
 	}
 	var out []ckOrigin
 	for _, h := range hosts {
